@@ -621,11 +621,16 @@ class Runner
         std::array<std::size_t, (NF ? NF : 1)> f{};
         for (std::size_t i = 0; i < NF; ++i) f[i] = ((d >> (3 * i)) & 7) % 5;
         // D16: elements of zero bytes (a list of FixedSize parameters only, all with size 0) are outside the domain
+        // (exception: the comparison properties C13 / C14 only emplace, pop, erase and compare such vectors, which the
+        // library handles; there, vectors that differ in nothing but the number of their zero-byte elements must differ)
         if constexpr (NF == N && NF > 0)
         {
             bool all_zero = true;
             for (std::size_t i = 0; i < NF; ++i) all_zero = all_zero && f[i] == 0;
-            if (all_zero) f[0] = 1;
+            if (prop == 13 && (d & 0xC00) == 0xC00)
+                for (std::size_t i = 0; i < NF; ++i) f[i] = 0;  // one construction in four
+            else if (all_zero)
+                f[0] = 1;
         }
         return f;
     }
@@ -643,8 +648,9 @@ class Runner
     }
 
     // D16: a list of FixedSize parameters only whose sizes are all 0 has elements of zero bytes
-    static bool zero_byte_elements(const MVec& m)
+    bool zero_byte_elements(const MVec& m) const
     {
+        if (prop == 13) return false;
         if constexpr (NF == N && NF > 0)
         {
             for (std::size_t i = 0; i < NF; ++i)
